@@ -222,6 +222,11 @@ def run_program(job):
     """job: dict(entry, tier, seed, skip_sample(list of pass names to try even without disagreement), want_snaps)
     -> picklable result dict"""
     entry, tier = job["entry"], job["tier"]
+    if "__BPLEN__" in entry["src"]:
+        # length of the blueprint's initcode (the deployed blueprint is the 3-byte ERC-5202 preamble + initcode)
+        hsrc, _ = HELPERS[entry["helper"]]
+        n = len(bytes.fromhex(compile_src(hsrc, Config(False, "gas", EVM), formats=("bytecode",))["bytecode"][2:]))
+        entry = dict(entry, src=entry["src"].replace("__BPLEN__", str(n)))
     rng = random.Random(f"{job['seed']}:c14p:{entry['name']}")
     res = {"name": entry["name"], "findings": [], "stats": {}, "snaps": [], "errors": [], "inputs": [], "ref_runtime": None, "live": []}
     stats = res["stats"]
